@@ -438,7 +438,7 @@ func TestC01(t *testing.T) {
 			}
 		}
 		chWorkflow := []string{"workflow", "workflow", "workflow-two-files", "workflow-two-files-no-repo"}
-		r.Check(t, "workflow-tree-mutations", hx.N(2500, 40000), func(rt *rapid.T) {
+		r.Check(t, "workflow-tree-mutations", hx.N(2500, 20000), func(rt *rapid.T) {
 			g := &wf.G{T: rt, Rare: rapid.Bool().Draw(rt, "rare")}
 			w := g.Workflow()
 			if rapid.Bool().Draw(rt, "shufflekeys") {
@@ -453,7 +453,7 @@ func TestC01(t *testing.T) {
 			run(rt, newC01Case(rapid.SampledFrom(chWorkflow).Draw(rt, "ch"), b), kinds, true)
 		})
 		if len(seeds) > 0 {
-			r.Check(t, "repo-seed-byte-mutations", hx.N(1200, 30000), func(rt *rapid.T) {
+			r.Check(t, "repo-seed-byte-mutations", hx.N(1200, 15000), func(rt *rapid.T) {
 				b, err := os.ReadFile(rapid.SampledFrom(seeds).Draw(rt, "seed"))
 				if err != nil {
 					return
@@ -482,7 +482,7 @@ func TestC01(t *testing.T) {
 				run(rt, newC01Case(rapid.SampledFrom(chWorkflow).Draw(rt, "ch"), b), kinds, true)
 			})
 		}
-		r.Check(t, "action-metadata", hx.N(1200, 25000), func(rt *rapid.T) {
+		r.Check(t, "action-metadata", hx.N(1200, 12000), func(rt *rapid.T) {
 			root := actionMetaBase(rt)
 			kinds := hostileMutate(rt, root, rapid.IntRange(1, 5).Draw(rt, "nmut"))
 			b := []byte(ye.Emit(root, ye.Layout{Indent: 2}))
@@ -491,7 +491,7 @@ func TestC01(t *testing.T) {
 			}
 			run(rt, newC01Case("action", b), kinds, true)
 		})
-		r.Check(t, "reusable-workflow", hx.N(1200, 25000), func(rt *rapid.T) {
+		r.Check(t, "reusable-workflow", hx.N(1200, 12000), func(rt *rapid.T) {
 			g := &wf.G{T: rt, Rare: true}
 			var w *wf.WF
 			for i := 0; i < 6; i++ {
@@ -507,7 +507,7 @@ func TestC01(t *testing.T) {
 			}
 			run(rt, newC01Case("reusable", b), kinds, true)
 		})
-		r.Check(t, "config", hx.N(1000, 20000), func(rt *rapid.T) {
+		r.Check(t, "config", hx.N(1000, 10000), func(rt *rapid.T) {
 			root := configBase(rt)
 			kinds := hostileMutate(rt, root, rapid.IntRange(1, 4).Draw(rt, "nmut"))
 			b := []byte(ye.Emit(root, ye.Layout{Indent: 2}))
